@@ -30,14 +30,26 @@ GRAMMAR = """
 Model: imports*=Import objs+=Obj users*=User;
 Import: 'import' importURI=STRING;
 Obj: 'obj' name=ID;
-User: 'user' name=ID 'ref' r=[Obj] ';';
+User: 'user' name=ID ('ref' r=[Obj] | 'many' rs+=[Obj]) ';';
 """
 CASES = [
     ('single', {'main': "obj a obj b obj c user u ref a ; user v ref b ; user w ref c ;"}),
     ('two-files', {'main': 'import "lib.m" obj a user u ref b ; user v ref a ;',
                    'lib.m': "obj b user w ref b ;"}),
+    ('list-middle', {'main': "obj a obj b obj c user u ref a ; user v many b c ; user w ref c ;"}),
     ('single-4', {'main': "obj a obj b user u ref a ; user v ref b ; user w ref a ; user x ref b ;"}),
+    ('lists-two-files', {'main': 'import "lib.m" obj a user u many b a ; user v ref a ;',
+                         'lib.m': "obj b user w many b b ;"}),
 ]
+
+
+def references(files):
+    """[(user, target)] for every reference in the case, textual order"""
+    out = []
+    for m in re.finditer(r'user (\w+) (?:ref|many) ([\w ]+?) ;', ' '.join(files.values())):
+        for t in m.group(2).split():
+            out.append((m.group(1), t))
+    return out
 
 
 def fixpoint(dep, k):
@@ -114,22 +126,16 @@ def run_case(ci, timeout_ms):
             return ('bad' if v == 'sat' else 'unknown', 'load failed although an order exists',
                     decode(mdl, dep, unames))
         # the message names exactly the unresolved references
-        targets = {u: re.search(r'user %s ref (\w+)' % u, ' '.join(files.values())).group(1)
-                   for u in unames}
+        refs = references(files)
         named = re.findall(r'"(\w+)" of class "Obj" at \((\d+), (\d+)\)', msg)
-        for i, u in enumerate(unames):
-            # reference of user u appears in the message iff not resolved
-            # (identify by target name and count)
-            pass
         named_count = {}
         for t, l, cl in named:
             named_count[t] = named_count.get(t, 0) + 1
-        # expected multiset of target names of unresolved references must be determined
-        for t in set(targets.values()):
-            users_t = [i for i, u in enumerate(unames) if targets[u] == t]
+        # per target name: exactly that many references to it are unresolved
+        for t in {t for u, t in refs}:
+            terms = [Not(R[unames.index(u)]) for u, tt in refs if tt == t]
             cnt = named_count.get(t, 0)
-            # exactly cnt of users_t unresolved
-            exact = exactly(cnt, [Not(R[i]) for i in users_t])
+            exact = exactly(cnt, terms)
             v, mdl = c.must(exact)
             if v != 'unsat':
                 return ('bad' if v == 'sat' else 'unknown',
@@ -138,6 +144,8 @@ def run_case(ci, timeout_ms):
         return ('ok-fail', None, None)
     try:
         outs = ctx.explore(path)
+        if not any(o[0] == 'ok' for o in outs):
+            raise RuntimeError('vacuous case (no dependency matrix loads): %s %r' % (name, outs[:1]))
     finally:
         for fn in files:
             try:
@@ -244,9 +252,7 @@ def replay_dep(ci, depmap):
                                                         'resolvable' if exp else 'unresolvable')
         if not ok:
             named = sorted(re.findall(r'"(\w+)" of class', msg))
-            targets = {u: re.search(r'user %s ref (\w+)' % u, ' '.join(files.values())).group(1)
-                       for u in unames}
-            want = sorted(targets[u] for i, u in enumerate(unames) if not R[i])
+            want = sorted(t for u, t in references(files) if not R[unames.index(u)])
             if named != want:
                 return True, 'error names %s, unresolved are %s' % (named, want)
         return False, 'ok'
@@ -266,7 +272,7 @@ def main():
     import textx.model as M
     chk = Check(PROP, 'exploration')
     quick = chk.tier == 'quick'
-    cases = [0, 1] if quick else [0, 1, 2]
+    cases = [0, 1, 2] if quick else list(range(len(CASES)))
     items = [(ci, 20000) for ci in cases]
     results = pmap(obligation, items)
     chk.cov['functions_encoded'] = src_hash(M.ReferenceResolver.resolve_one_step, M.parse_tree_to_objgraph)
